@@ -12,6 +12,8 @@
       assumed to return a key-sorted permutation;
     - the choice among equal minima in the quaternary heap of [KMergeIters]: [ties]. *)
 From WG Require Import Base.Prelude.
+
+Module SortM.
 Local Open Scope N_scope.
 
 (** * Keys: pairs of nodes in lexicographic order *)
@@ -345,3 +347,7 @@ End Labeled.
 
 Arguments tok L : clear implicits.
 Arguments triple L : clear implicits.
+
+
+End SortM.
+Export SortM.
